@@ -165,6 +165,7 @@ var pureExternPrefixes = []string{
 	"(*github.com/bandprotocol/chain/v3/app.BandApp).AppCodec",
 	"(*github.com/cometbft/cometbft/abci/types.ResponseQuery).",
 	"(github.com/cosmos/cosmos-sdk/types.Context).VoteInfos",
+	"github.com/cosmos/cosmos-sdk/types.VerifyAddressFormat",
 }
 
 var freshExternPrefixes = []string{
@@ -637,6 +638,19 @@ func (fc *FCtx) callByContract(c *FuncContract, fn *types.Func, sig *types.Signa
 			litArgs = append(litArgs, lit)
 			names[pn[i]] = Val{T: "@funclit", S: fc.U.opaque("Func")}
 			continue
+		}
+		// a pointer to a struct passed where the callee takes an interface (an environment object the callee fills in):
+		// the contract sees the struct itself under the parameter's name, and may list it in `modifies`
+		if _, isIface := pt.Underlying().(*types.Interface); isIface {
+			if at := fc.info().TypeOf(a); at != nil {
+				if ap, ok := at.Underlying().(*types.Pointer); ok {
+					if _, isStruct := ap.Elem().Underlying().(*types.Struct); isStruct {
+						names[pn[i]] = fc.eval(a, st)
+						outs = append(outs, outParam{pn[i], a, at})
+						continue
+					}
+				}
+			}
 		}
 		v := fc.eval(a, st)
 		v = fc.coerce(v, pt)
